@@ -4,6 +4,7 @@
 -/
 import Btcdeb.Model.Session
 import Btcdeb.Model.SpendMain
+import Btcdeb.Model.Sighash
 import Btcdeb.Crypto.Sha1
 import Btcdeb.Crypto.Ripemd160
 import Btcdeb.Crypto.Ecdsa
@@ -34,9 +35,18 @@ def baseCtx : Model.Ctx where
   checkECDSA := fun _ _ _ _ => false
   checkSchnorr := fun _ _ _ _ => .error (.script .UNKNOWN_ERROR)
 
-/-- TEMPORARY: transaction checker = base checker (replaced once Model/Sighash.lean lands) -/
+/-- how `Instance::setup_environment` builds its checker (instance.cpp:187-203): `txdata.Init` with the one known
+    spent output when requested; an assertion failure inside `Init` cannot happen there (one output, one input) -/
 def checkerBuilder : Model.CheckerBuilder where
-  build := fun _ _ _ _ => baseCtx
+  build := fun tx nIn amount init =>
+    let txdata : Model.PrecomputedTxData :=
+      match init with
+      | some (spent, force) =>
+        match Model.precomputeInit Model.stdCrypto tx spent force with
+        | .ok d => d
+        | .error _ => {}
+      | none => {}
+    Model.txChecker tx nIn amount txdata
   base := baseCtx
 
 end Btcdeb.Glue
